@@ -816,7 +816,10 @@ class QvmCpu:
                       got=b.type)
 
         try:
-            result = a.value ** b.value
+            # always in floating point: an integer power such as
+            # 2147483647& ^ 2147483647& would otherwise be computed
+            # exactly, which takes forever and exhausts memory
+            result = float(a.value) ** float(b.value)
         except OverflowError:
             self.trap(TrapCode.INVALID_CELL_VALUE,
                       type=a.type,
